@@ -56,6 +56,7 @@ func ValidQuery(schema *ast.Schema, query string) bool { panic("ghost") }
 //@ ensures[index] err == nil && res != nil && res.index == index
 //@ ensures[invalid] !ValidQuery(g.schema, rs.Requests[index].Query) ==> res.Data == nil && len(res.Errors) >= 1
 //@ ensures[fresh] fresh(res)
+//@ ensures[never-empty] res.Data == nil ==> len(res.Errors) >= 1 @props C07 C09
 //@ ensures[invalid-no-downstream] !ValidQuery(g.schema, rs.Requests[index].Query) ==> queryer.QueryCalls == old(queryer.QueryCalls) @props C10
 //@ ensures[unknown-op] ValidQuery(g.schema, rs.Requests[index].Query) && rs.Requests[index].OperationName != nil && OpNamed(LoadedDoc(g.schema, rs.Requests[index].Query).Operations, *rs.Requests[index].OperationName) == nil ==> queryer.QueryCalls == old(queryer.QueryCalls) && res.Data == nil && len(res.Errors) >= 1 @props C10
 //@ ensures[ambiguous-op] ValidQuery(g.schema, rs.Requests[index].Query) && rs.Requests[index].OperationName == nil && len(LoadedDoc(g.schema, rs.Requests[index].Query).Operations) != 1 ==> queryer.QueryCalls == old(queryer.QueryCalls) && res.Data == nil && len(res.Errors) >= 1 @props C10
@@ -108,6 +109,7 @@ func ValidQuery(schema *ast.Schema, query string) bool { panic("ghost") }
 //@ props C07
 //@ requires g != nil && plan != nil && request != nil
 //@ ensures[fresh] result != nil ==> fresh(result)
+//@ ensures[data] result != nil ==> result.Data != nil
 //@ modifies-assumed fresh
 //@ end
 
